@@ -482,6 +482,8 @@ func c12TTests(c *Ctx, p *Prog) {
 					return rQuo(rMul(rSub(g("md"), g("mu0")), rSqrt(g("n"))), g("sd"))
 				}, pts, leaf)
 				c.Check(okT, "C12/R2", "PairedTTest:t", site, "t = (mean(diff) - mu0)·sqrt(n)/sd(diff)", "paired t statistic: "+dT)
+				okD, dD := ufEqual(res.Args[3], func(g func(string) *big.Rat) *big.Rat { return rSub(g("n"), rat(1, 1)) }, pts, leaf)
+				c.Check(okD, "C12/R2", "PairedTTest:dof", site, "n - 1 degrees of freedom", "paired degrees of freedom: "+dD)
 			}
 		}
 		// the differences themselves: every float stored into a local buffer inside a loop of PairedTTest is x1[i] - x2[i]
